@@ -195,6 +195,9 @@ class NameGen:
                 comps.append('..')
             elif j < 0.8:
                 comps.append(self._word(RRCHARS.replace('.', ''), 1, 12))
+            elif j < 0.84:
+                # beyond Latin-1: UDF records such a component in 16-bit characters, Rock Ridge as UTF-8 bytes
+                comps.append(self._word(RRCHARS.replace('.', '') + UNI_BMP + UNI_BMP, 1, 10))
             elif j < 0.9:
                 # names that start or end like the special components
                 comps.append(r.choice(('.', '..', '...')) + self._word(RRCHARS.replace('.', ''), 0 if r.random() < 0.2 else 1, 10) + r.choice(('', '', '.', '..')))
